@@ -71,20 +71,14 @@ def expected (d : Doc) : List (Str × NV) :=
 end Pipfile
 
 namespace PackagesLock
-/-- decoded document with the entry type the NuGet lock file carries: framework ↦ (id, resolved, type) -/
-abbrev TDoc := List (Str × List (Str × Str × Str))
-def TDoc.toDoc (d : TDoc) : Doc := d.map fun fw => (fw.1, fw.2.map fun e => (e.1, e.2.1))
-
-/-- every (id, resolved version) the file lists under any target framework -/
-def listed (d : Doc) : List NV := d.flatMap fun fw => fw.2.map fun p => ⟨p.1, p.2⟩
+/-- every (id, resolved version) the file lists as a NuGet package under any target framework; a `"type": "Project"` entry is a
+project reference, not a package -/
+def listed (d : Doc) : List NV :=
+  d.flatMap fun fw => (fw.2.filter fun e => e.2.2 ≠ "Project".toList).map fun e => ⟨e.1, e.2.1⟩
 
 /-- what a scan must report: the DISTINCT (id, version) pairs — NuGet resolves every target framework on its own, so one id
 can be listed at different versions (two packages) or at the same version (one package) -/
 def expected (d : Doc) : List NV := dedup (listed d)
-
-/-- the same for a document with entry types: a `"type": "Project"` entry is a project reference, not a NuGet package -/
-def expectedT (d : TDoc) : List NV :=
-  dedup (d.flatMap fun fw => (fw.2.filter fun e => e.2.2 ≠ "Project".toList).map fun e => ⟨e.1, e.2.1⟩)
 end PackagesLock
 
 namespace GoMod
